@@ -36,6 +36,9 @@ type Config struct {
 	Delay         int
 	DropElement   int  // permille: remove one designed element (query key, header, cookie, top-level JSON body key) from the request
 	Droppable     func(loc, name string) bool // which elements may be removed (nil: none)
+	// Reroute may move the request to another route the design gives the same method (verb and path);
+	// it returns true when it did. Called once per request, before it is serialised.
+	Reroute func(req *http.Request) bool
 	Yields        bool // scheduling points at transport I/O
 	FlipRegion    func(wire []byte) (lo, hi int) // region of the request in which flips may land (nil: body)
 	RewriteHeader map[string][]string            // response header rewrites (name -> candidate values), applied with RewriteRate
@@ -51,6 +54,7 @@ type Exchange struct {
 	ReqFault       string
 	ReqFaultAt     int
 	ReqWireSent    []byte // drop_element: the request before the element was removed
+	Rerouted       bool   // the request was moved to the design's alternative route
 	DroppedLoc     string // drop_element: query | header | cookie | body
 	DroppedName    string
 	Parsed         bool // the server side could parse the request head
@@ -175,6 +179,10 @@ func (n *Net) do(req *http.Request, ex *Exchange) (*http.Response, error) {
 		if len(b) == 0 {
 			req.Body = http.NoBody
 		}
+	}
+	if n.Cfg.Reroute != nil && n.Cfg.Reroute(req) {
+		ex.Rerouted = true
+		ex.Faults = append(ex.Faults, "perturb:alternative-route")
 	}
 	if req.URL.Host == "" {
 		req.URL.Host = "sim"
